@@ -6,6 +6,8 @@ import AdaVerif.Model.Encode
 import AdaVerif.Model.AggSetters
 import AdaVerif.Model.UrlSetters
 import AdaVerif.Model.Protocol
+import AdaVerif.Model.HostSetter
+import Driver.UrlCmd
 /- agg.edit <state> <editor> <hexarg> : apply one Model editor to a buffer-with-offsets state.
    state = buf,pe,ue,hs,he,port,ps,ss,hh,opq   (hex buffer, decimal offsets, '-' = omitted) -/
 namespace Driver
@@ -115,7 +117,8 @@ def cmdUrlModel (a : List String) : String :=
     values in the same format and the setter's return value -/
 def cmdUrlSet (a : List String) : String :=
   match a with
-  | [op, lim, ty, scheme, special, user, pass, host, port, path, query, hash, opq, value] =>
+  | op :: lim :: ty :: scheme :: special :: user :: pass :: host :: port :: path :: query :: hash :: opq :: value :: hintArgs =>
+    let idna := mkIdna (parseHints hintArgs)
     let optB (s : String) : Option Bytes := if s == "!" then none else some (unhexs s)
     let r : Model.UrlRec.Rec := Model.UrlRec.Rec.mk (unhexs scheme) (special == "1") (unhexs user) (unhexs pass) (optB host) (optNat port)
       (unhexs path) (optB query) (optB hash) (opq == "1")
@@ -132,11 +135,22 @@ def cmdUrlSet (a : List String) : String :=
       | "set_search" => some (Model.UrlRec.setSearchR L r v, true)
       | "set_pathname" => some (Model.UrlRec.setPathnameR L t r v)
       | "set_protocol" => some (Model.UrlRec.setProtocolR L t r v)
+      | "set_host" => some (Model.UrlRec.setHostR false idna L t dflt r v)
+      | "set_hostname" => some (Model.UrlRec.setHostR true idna L t dflt r v)
       | _ => none
     match res with
     | none => "bad-op"
     | some (r', ok) =>
       let o (x : Option Bytes) : String := match x with | some b => hexs b | none => "!"
+      -- an IDNA answer that is not among the hints shows up as a marker in the host (looked for without the limit, so
+      -- that a refusal for size cannot hide it)
+      let probe : Option Bytes := match op with
+        | "set_host" => findMarker ((Model.UrlRec.setHostR false idna 4294967295 t dflt r v).1.host.getD [])
+        | "set_hostname" => findMarker ((Model.UrlRec.setHostR true idna 4294967295 t dflt r v).1.host.getD [])
+        | _ => none
+      match probe with
+      | some d => s!"need-idna {hexs d}"
+      | none =>
       s!"{hexs r'.scheme} {if r'.special then 1 else 0} {hexs r'.username} {hexs r'.password} {o r'.host} {showOpt r'.port} " ++
       s!"{hexs r'.path} {o r'.query} {o r'.hash} {if r'.opq then 1 else 0} r={if ok then 1 else 0}"
   | _ => "bad-op"
